@@ -38,6 +38,7 @@ func (m *machine) lateGlobal(g *ssa.Global, p ptr) {
 	}
 	p.own.what = "global " + g.String() + " (package init not interpreted)"
 	p.own.uninit = true
+	p.own.lazyG = g
 }
 
 func (m *machine) namedExtErr(name string) *extErr {
@@ -70,6 +71,13 @@ func (m *machine) tryIntrinsic(th *thread, caller *frame, fn *ssa.Function, args
 		}
 	}
 	if h, ok := intrinsics[name]; ok {
+		// an intrinsic reads its operands directly: a global of an uninterpreted
+		// package passed by address is initialised (or the path ends) first
+		for _, a := range args {
+			if p, isPtr := a.(ptr); isPtr && p.own != nil && p.own.uninit && !m.tryLazyInit(p.own) {
+				panic(pathEnd{kind: endUnsupported, msg: "use of " + p.own.what})
+			}
+		}
 		return h(th, caller, fn, args, site), true
 	}
 	pp := pkgPathOf(fn)
@@ -549,6 +557,14 @@ func init() {
 		"internal/bytealg.Compare": func(th *thread, caller *frame, fn *ssa.Function, args []value, site ssa.Instruction) value {
 			m := th.m
 			a, b := mkStr(m.sliceBytes(args[0].(slicev))), mkStr(m.sliceBytes(args[1].(slicev)))
+			lt := m.strBinop(tokLSS, a, b).(sc)
+			eq := m.equals(nil, a, b).(sc)
+			r := m.tb.ite(m.toTerm(lt, 0), m.tb.constBV(^uint64(0), 64), m.tb.ite(m.toTerm(eq, 0), m.tb.constBV(0, 64), m.tb.constBV(1, 64)))
+			return m.fromTerm(r)
+		},
+		"internal/bytealg.CompareString": func(th *thread, caller *frame, fn *ssa.Function, args []value, site ssa.Instruction) value {
+			m := th.m
+			a, b := mkStr(strBytes(args[0])), mkStr(strBytes(args[1]))
 			lt := m.strBinop(tokLSS, a, b).(sc)
 			eq := m.equals(nil, a, b).(sc)
 			r := m.tb.ite(m.toTerm(lt, 0), m.tb.constBV(^uint64(0), 64), m.tb.ite(m.toTerm(eq, 0), m.tb.constBV(0, 64), m.tb.constBV(1, 64)))
